@@ -259,80 +259,127 @@ impl Cfg {
             ("a".into(), vec![("href".into(), vec!["javascript".into(), "https".into(), "x-fresh".into()])]),
             ("img".into(), vec![("src".into(), vec!["http".into(), "mxc".into()])]),
         ];
-        if let Some((b, p)) = &self.replace_elements {
-            c = c.replace_elements(
-                [NameReplacement { old: "b", new: "i" }, NameReplacement { old: "span", new: "x-foo" }],
-                lb(!*b),
-            );
-            c = c.replace_elements(
-                p.iter().map(|(o, n)| NameReplacement { old: leak(o), new: leak(n) }),
-                lb(*b),
-            );
+        // The builder methods are independent setters (each overwrites its own field), so the order in
+        // which they are called must not matter. The order used here is a permutation derived from the
+        // configuration itself (deterministic per request, different across requests), so that e.g.
+        // `remove_reply_fallback()` is called before `remove_elements(..)` as often as after it.
+        let mut order: Vec<usize> = (0..13).collect();
+        {
+            let mut h: u64 = 0xcbf2_9ce4_8422_2325;
+            for b in format!("{self:?}").bytes() {
+                h ^= b as u64;
+                h = h.wrapping_mul(0x0000_0100_0000_01b3);
+            }
+            for i in (1..order.len()).rev() {
+                h = h.wrapping_mul(6364136223846793005).wrapping_add(1442695040888963407);
+                order.swap(i, ((h >> 33) as usize) % (i + 1));
+            }
         }
-        if let Some(n) = &self.remove_elements {
-            c = c.remove_elements(leaks(&decoy_names));
-            c = c.remove_elements(leaks(n));
-        }
-        if self.rrf {
-            c = c.remove_reply_fallback();
-        }
-        if let Some(n) = &self.ignore_elements {
-            c = c.ignore_elements(leaks(&decoy_names));
-            c = c.ignore_elements(leaks(n));
-        }
-        if let Some((b, n)) = &self.allow_elements {
-            c = c.allow_elements(leaks(&decoy_names), lb(!*b));
-            c = c.allow_elements(leaks(n), lb(*b));
-        }
-        if let Some((b, p)) = &self.replace_attrs {
-            let decoy = [NameReplacement { old: "href", new: "src" }, NameReplacement { old: "class", new: "id" }];
-            c = c.replace_attributes(
-                [ElementAttributesReplacement { element: "a", replacements: &decoy }],
-                lb(!*b),
-            );
-            let store: Vec<(&'static str, Vec<NameReplacement>)> = p
-                .iter()
-                .map(|(e, m)| {
-                    (
-                        leak(e),
-                        m.iter().map(|(o, n)| NameReplacement { old: leak(o), new: leak(n) }).collect(),
-                    )
-                })
-                .collect();
-            c = c.replace_attributes(
-                store.iter().map(|(e, m)| ElementAttributesReplacement { element: e, replacements: m }),
-                lb(*b),
-            );
-        }
-        if let Some(p) = &self.remove_attrs {
-            c = with_props(&decoy_perel, |v| c.remove_attributes(v));
-            c = with_props(p, |v| c.remove_attributes(v));
-        }
-        if let Some((b, p)) = &self.allow_attrs {
-            c = with_props(&decoy_perel, |v| c.allow_attributes(v, lb(!*b)));
-            c = with_props(p, |v| c.allow_attributes(v, lb(*b)));
-        }
-        if let Some(p) = &self.deny_schemes {
-            c = with_schemes(&decoy_schemes, |v| c.deny_schemes(v));
-            c = with_schemes(p, |v| c.deny_schemes(v));
-        }
-        if let Some((b, p)) = &self.allow_schemes {
-            c = with_schemes(&decoy_schemes, |v| c.allow_schemes(v, lb(!*b)));
-            c = with_schemes(p, |v| c.allow_schemes(v, lb(*b)));
-        }
-        if let Some(p) = &self.remove_classes {
-            c = with_props(&decoy_perel, |v| c.remove_classes(v));
-            c = with_props(p, |v| c.remove_classes(v));
-        }
-        if let Some((b, p)) = &self.allow_classes {
-            c = with_props(&decoy_perel, |v| c.allow_classes(v, lb(!*b)));
-            c = with_props(p, |v| c.allow_classes(v, lb(*b)));
-        }
-        if self.max_depth.is_some() {
-            c = c.max_depth(7);
-        }
-        if let Some(d) = self.max_depth {
-            c = c.max_depth(d);
+        for step in order {
+            match step {
+                0 => {
+                if let Some((b, p)) = &self.replace_elements {
+                    c = c.replace_elements(
+                        [NameReplacement { old: "b", new: "i" }, NameReplacement { old: "span", new: "x-foo" }],
+                        lb(!*b),
+                    );
+                    c = c.replace_elements(
+                        p.iter().map(|(o, n)| NameReplacement { old: leak(o), new: leak(n) }),
+                        lb(*b),
+                    );
+                }
+                }
+                1 => {
+                if let Some(n) = &self.remove_elements {
+                    c = c.remove_elements(leaks(&decoy_names));
+                    c = c.remove_elements(leaks(n));
+                }
+                }
+                2 => {
+                if self.rrf {
+                    c = c.remove_reply_fallback();
+                }
+                }
+                3 => {
+                if let Some(n) = &self.ignore_elements {
+                    c = c.ignore_elements(leaks(&decoy_names));
+                    c = c.ignore_elements(leaks(n));
+                }
+                }
+                4 => {
+                if let Some((b, n)) = &self.allow_elements {
+                    c = c.allow_elements(leaks(&decoy_names), lb(!*b));
+                    c = c.allow_elements(leaks(n), lb(*b));
+                }
+                }
+                5 => {
+                if let Some((b, p)) = &self.replace_attrs {
+                    let decoy = [NameReplacement { old: "href", new: "src" }, NameReplacement { old: "class", new: "id" }];
+                    c = c.replace_attributes(
+                        [ElementAttributesReplacement { element: "a", replacements: &decoy }],
+                        lb(!*b),
+                    );
+                    let store: Vec<(&'static str, Vec<NameReplacement>)> = p
+                        .iter()
+                        .map(|(e, m)| {
+                            (
+                                leak(e),
+                                m.iter().map(|(o, n)| NameReplacement { old: leak(o), new: leak(n) }).collect(),
+                            )
+                        })
+                        .collect();
+                    c = c.replace_attributes(
+                        store.iter().map(|(e, m)| ElementAttributesReplacement { element: e, replacements: m }),
+                        lb(*b),
+                    );
+                }
+                }
+                6 => {
+                if let Some(p) = &self.remove_attrs {
+                    c = with_props(&decoy_perel, |v| c.remove_attributes(v));
+                    c = with_props(p, |v| c.remove_attributes(v));
+                }
+                }
+                7 => {
+                if let Some((b, p)) = &self.allow_attrs {
+                    c = with_props(&decoy_perel, |v| c.allow_attributes(v, lb(!*b)));
+                    c = with_props(p, |v| c.allow_attributes(v, lb(*b)));
+                }
+                }
+                8 => {
+                if let Some(p) = &self.deny_schemes {
+                    c = with_schemes(&decoy_schemes, |v| c.deny_schemes(v));
+                    c = with_schemes(p, |v| c.deny_schemes(v));
+                }
+                }
+                9 => {
+                if let Some((b, p)) = &self.allow_schemes {
+                    c = with_schemes(&decoy_schemes, |v| c.allow_schemes(v, lb(!*b)));
+                    c = with_schemes(p, |v| c.allow_schemes(v, lb(*b)));
+                }
+                }
+                10 => {
+                if let Some(p) = &self.remove_classes {
+                    c = with_props(&decoy_perel, |v| c.remove_classes(v));
+                    c = with_props(p, |v| c.remove_classes(v));
+                }
+                }
+                11 => {
+                if let Some((b, p)) = &self.allow_classes {
+                    c = with_props(&decoy_perel, |v| c.allow_classes(v, lb(!*b)));
+                    c = with_props(p, |v| c.allow_classes(v, lb(*b)));
+                }
+                }
+                12 => {
+                if self.max_depth.is_some() {
+                    c = c.max_depth(7);
+                }
+                if let Some(d) = self.max_depth {
+                    c = c.max_depth(d);
+                }
+                }
+                _ => unreachable!(),
+            }
         }
         c
     }
